@@ -295,6 +295,57 @@ def rule_K3(ctx):
     ctx.analysed(f, g)
 
 
+def rule_K7(ctx):
+    """A hand-rolled memo (a module-level dict / list / set that a function fills and reads back) is a cache without a
+    decorator: the key it is stored under must cover every parameter of the function, or a later call that differs in
+    the forgotten parameter is served the earlier result.  Module-level containers that are only read are tables."""
+    prog = ctx.prog
+    ctx.rule("K7", "no hand-rolled memo table keyed on fewer inputs than the function has", 1)
+    n = 0
+    for mod in prog.modules.values():
+        tables = set()
+        for st_ in mod.tree.body:
+            if isinstance(st_, (ast.Assign, ast.AnnAssign)) and st_.value is not None:
+                v = st_.value
+                is_container = isinstance(v, (ast.Dict, ast.List, ast.Set)) or (isinstance(v, ast.Call) and call_name(v).split(".")[-1] in ("dict", "list", "set", "defaultdict", "OrderedDict", "WeakValueDictionary") )
+                if is_container:
+                    for t in (st_.targets if isinstance(st_, ast.Assign) else [st_.target]):
+                        if isinstance(t, ast.Name):
+                            tables.add(t.id)
+        if not tables:
+            continue
+        for fi in prog.functions.values():
+            if fi.module is not mod:
+                continue
+            local = {x.id for x in ast.walk(fi.node) if isinstance(x, ast.Name) and isinstance(x.ctx, ast.Store)} | set(fi.params)
+            for st_ in ast.walk(fi.node):
+                tgt = None
+                if isinstance(st_, ast.Assign):
+                    for t in st_.targets:
+                        if isinstance(t, ast.Subscript) and isinstance(t.value, ast.Name) and t.value.id in tables and t.value.id not in local:
+                            tgt = t
+                elif isinstance(st_, ast.Call) and isinstance(st_.func, ast.Attribute) and st_.func.attr == "setdefault" and isinstance(st_.func.value, ast.Name) and st_.func.value.id in tables and st_.func.value.id not in local and st_.args:
+                    tgt = ast.Subscript(value=st_.func.value, slice=st_.args[0], ctx=ast.Store())
+                    ast.copy_location(tgt, st_)
+                if tgt is None:
+                    continue
+                n += 1
+                # names the key is computed from (through local assignments of the key variable)
+                def names_of(e, depth=0):
+                    out = {x.id for x in ast.walk(e) if isinstance(x, ast.Name)}
+                    if depth < 3:
+                        for nm in list(out):
+                            for a in ast.walk(fi.node):
+                                if isinstance(a, ast.Assign) and any(isinstance(t, ast.Name) and t.id == nm for t in a.targets):
+                                    out |= names_of(a.value, depth + 1)
+                    return out
+                key_names = names_of(tgt.slice)
+                params = [p for p in fi.params if p not in ("self", "cls")]
+                missing = [p for p in params if p not in key_names]
+                ctx.check(not missing, "K7", "%s: memo table %s is keyed on every parameter" % (fi.qualname.split("phyclone.")[-1], tgt.value.id), fi.where(st_), "%s stores its result in the module-level table %s under %s, which does not depend on %s: a call that differs only there is served the stored result" % (fi.name, tgt.value.id, u(tgt.slice)[:60], ", ".join(missing)), construct=fi.qualname, stmt="memo key of " + tgt.value.id)
+    ctx.ok("K7", "%d store(s) into module-level tables inspected" % n, "phyclone")
+
+
 VERIFIED_SYMMETRIC = {"phyclone.tree.utils.compute_log_S", "phyclone.tree.utils._convolve_two_children"}
 
 
@@ -617,6 +668,7 @@ def run(ctx):
     ctx.soft(rule_K4)
     ctx.soft(rule_K5)
     ctx.soft(rule_K6)
+    ctx.soft(rule_K7)
     # a cached proposal / tree holder is served again and again: the trees handed out from it must share nothing
     # mutable with the cached entry (same rule object as C06.M4)
     from . import _premises
